@@ -1019,7 +1019,7 @@ def c06():
     res.append(("sweep", sw))
     exhaustive = core.tier() == "thorough"
     # design level: the layout computation as the code performs it (FormatImpl) on a grid of requests around every threshold
-    r = core.mc_run("MC_FormatImpl", "SPECIFICATION Spec\nCONSTANT Deep = %s\nINVARIANT ValidInv\nINVARIANT DefaultInv\nCHECK_DEADLOCK FALSE\n" % ("TRUE" if core.tier() == "thorough" else "FALSE"),
+    r = core.mc_run("MC_FormatImpl", "SPECIFICATION Spec\nCONSTANT Deep = %s\nCONSTANT LegacyF = {}\nINVARIANT ValidInv\nINVARIANT DefaultInv\nCHECK_DEADLOCK FALSE\n" % ("TRUE" if core.tier() == "thorough" else "FALSE"),
                     wd, "formatimpl", workers=8, xmx="8g", timeout=6000)
     if not r["ok"]:
         raise core.ToolError("MC_FormatImpl failed:\n" + r["out_tail"])
@@ -1648,6 +1648,10 @@ def selftest(args):
     good = (not r["ok"]) and "LinkFree" in r["violated"]
     ok = ok and good
     print("TableOrder Legacy=link_first        expected counterexample to LinkFree     %s" % ("ok" if good else "MISSED"))
+    r = core.mc_run("MC_FormatImpl", 'SPECIFICATION Spec\nCONSTANT Deep = FALSE\nCONSTANT LegacyF = {"spf_round_down"}\nINVARIANT ValidInv\nCHECK_DEADLOCK FALSE\n', wd, "flegacyf")
+    good = (not r["ok"]) and "ValidInv" in r["violated"]
+    ok = ok and good
+    print("FormatImpl LegacyF=spf_round_down   expected counterexample to ValidInv     %s" % ("ok" if good else "MISSED"))
     for flag in ("no_rootc_check", "fat32_needs_rootn0"):
         r = core.mc_run("MC_MountImpl", 'SPECIFICATION Spec\nCONSTANT Deep = FALSE\nCONSTANT LegacyM = {"%s"}\nINVARIANT SoundInv\nCHECK_DEADLOCK FALSE\n' % flag, wd, "mlegacy")
         good = (not r["ok"]) and "SoundInv" in r["violated"]
